@@ -23,6 +23,9 @@ PROPS["C17"] = {
         {"name": "random", "pkg": "c17", "test": "TestRandom",
          "quick": {"shards": 4, "checks": 40000, "cap": 600},
          "thorough": {"shards": 16, "checks": 3000000, "cap": 3600}},
+        {"name": "fuzz", "pkg": "c17", "test": "FuzzC17", "kind": "fuzz",
+         "quick": {"skip": True},
+         "thorough": {"fuzztime": "120s", "cap": 900}},
     ],
 }
 
@@ -166,6 +169,9 @@ PROPS["C16"] = {
         {"name": "robust", "pkg": "c16", "test": "TestRobust",
          "quick": {"shards": 6, "checks": 18000, "cap": 900},
          "thorough": {"shards": 16, "checks": 600000, "cap": 7200}},
+        {"name": "fuzz", "pkg": "c16", "test": "FuzzLoaders", "kind": "fuzz",
+         "quick": {"skip": True},
+         "thorough": {"fuzztime": "240s", "cap": 1800}},
     ],
 }
 
